@@ -94,7 +94,7 @@ def apply_rank(nodes, opt):
 def lockstep(item):
     tid, recs = item
     parent, opt = _TREES[tid - 1]
-    nodes = tree.build(parent, id_scheme(parent, tid))
+    nodes = tree.build(parent, id_scheme(parent, tid), variant=tid)
     apply_rank(nodes, opt)
     src = tree.source(opt, variant=tid)
     num = {n.uid: i + 1 for i, n in enumerate(nodes)}
@@ -182,7 +182,7 @@ def random_history(seed):
     ids = [(style % i) if '%d' in style else style + str(i) for i in range(1, n + 1)]
     if seed % 4 == 1:
         ids = id_scheme(par2, 1 + seed % 2)
-    nodes = tree.build(par2, ids)
+    nodes = tree.build(par2, ids, variant=seed)
     num = {nd.uid: i + 1 for i, nd in enumerate(nodes)}
     steps = []
     opt = mkopt(rng.choice(OPTS), n, rng)
